@@ -8,6 +8,15 @@ import EaselModel.Msafile.PhylipLemmas
 import EaselModel.Msafile.WriteLemmas
 import EaselModel.Msafile.StoWritable
 import EaselModel.Msafile.StockholmLemmas
+import EaselModel.Msafile.SelexWritable
+import EaselModel.Msafile.SelexLemmas
+import EaselModel.Msafile.A2mLemmas
+import EaselModel.Msafile.A2mWritable
+import EaselModel.Msafile.A2mIdem
+import EaselModel.Msafile.ClustalIdem
+import EaselModel.Msafile.ClustalLemmas
+import EaselModel.Msafile.PsiblastIdem
+import EaselModel.Msafile.PsiblastLemmas
 /-! # C03 — writing an alignment and reading it back preserves it: property theorems
 
 Full statement (properties.jsonl): for every well-formed alignment, writing it in any of the ten formats and reading the
@@ -15,7 +24,7 @@ output back (declared or autodetected format, text or digital) yields an alignme
 the format can represent; output is deterministic, accepted by the reader, and re-writing the re-read alignment
 reproduces the same bytes.
 
-PARTIAL at this revision: the round-trip theorems cover aligned FASTA, PHYLIP (sequential and interleaved) and Pfam / multi-block Stockholm for alignments that carry names and rows only (declared format), text mode and digital mode with the
+PARTIAL at this revision (see the sections below for A2M, Clustal, PSI-BLAST, SELEX and annotated Stockholm, each with its own `Writable`): the round-trip theorems cover aligned FASTA, PHYLIP (sequential and interleaved) and Pfam / multi-block Stockholm for alignments that carry names and rows only (declared format), text mode and digital mode with the
 generated amino/DNA/RNA alphabets, for alignments of ANY size. `AfaTextWritable` / `AfaDigitalWritable` say what AFA
 can carry: ≥ 1 sequence, ≥ 1 column, names without blank/tab/NUL, descriptions that do not start with a blank and hold
 no NUL, no LF inside / CR at the end of a name line, no separate accessions (AFA prints them into the description),
@@ -237,15 +246,22 @@ example : (phylipProject (phylipCfg (some abcDna)) exPhyDna).ax = exPhyDna.ax :=
 /-! ## ===== STOCKHOLM/PFAM — begin =====
 
 Round trip through `stockholm_write` (`stockholmWrite pfam`, `pfam = true`: one block; `false`: 200-column blocks
-separated by blank lines) and `esl_msafile_stockholm_Read`, for alignments of ANY size that carry names and aligned rows
-ONLY (`StoPlain`: no weights, no cut-offs, no #=GF/#=GS/#=GC/#=GR annotation, no comments).
+separated by blank lines) and `esl_msafile_stockholm_Read`, for alignments of ANY size that carry names, aligned rows and
+the annotation `StoAnn` admits (Stage 4.1 + the first half of 4.2):
+  * `#=GC SS_cons / SA_cons / PP_cons / RF / MM` (any subset): one character per column, none white space or NUL
+    (`colTextOk`); they are written at the end of every block and wrapped with it;
+  * `#=GF ID`, `#=GF AC`: one token, no blank/tab/NUL/LF, not ending in CR (`gfTokOk`);
+    `#=GF DE`, `#=GF AU`: free text, may be empty and may hold blanks, does not BEGIN with blank/tab, no NUL/LF, not ending in
+    CR (`gfTextOk`; trailing blanks ARE kept by the reader for #=GF).
+`StoPlain` (names and rows only) is the special case `StoPlain.ann`.
 `StoTextWritable` / `StoDigitalWritable`: ≥ 1 sequence, ≥ 1 column, names pairwise distinct, non-empty, without
 blank/tab/NUL/LF, not beginning with `#` nor `//`; text residues graphic; digital rows well formed.
-`stoProject` = the alignment itself with the rows in the reader's mode and default weights.
+`stoProject` = the alignment itself (ALL annotation fields unchanged) with the rows in the reader's mode and default weights.
 
-PARTIAL with respect to the full statement ("Stockholm and Pfam preserve all of it"): annotation (Stage 4: #=GF ID/AC/DE/AU,
-comments, #=GS, #=GC, #=GR, unparsed tags) is not covered by a theorem here; weights and cut-offs cannot be stated because the
-reader model does not carry their numeric value.  The executable check covers them. -/
+PARTIAL with respect to the full statement ("Stockholm and Pfam preserve all of it"): `StoAnn` still demands
+`comments = []`, `gf = []` (unparsed #=GF), `gc = []` (unparsed #=GC), no #=GS (`sqacc sqdesc gs`), no #=GR (`ss sa pp gr`),
+no weights, no cut-offs: Stages 4.2b–4.5 are not covered by a theorem (weights/cut-offs can only be stated up to the numeric
+value, which the reader model does not carry).  The executable check covers all of them. -/
 
 theorem stockholm_write_deterministic (pfam : Bool) (abc : Option Abc) (m₁ m₂ : Msa) (h : m₁ = m₂) :
     stockholmWrite pfam abc m₁ = stockholmWrite pfam abc m₂ := by rw [h]
@@ -307,6 +323,17 @@ theorem stockholm_preserves_names_rows (m : Msa) (h : StoTextWritable m) :
   intro i hi
   simp [stoProject, stockholmCfg, Cfg.digital, Msa.stored, h.dig, List.getD_eq_getElem?_getD, hi]
 
+/-- **Stage 4.1/4.2a, general form**: with `#=GC` consensus lines and `#=GF ID/AC/DE/AU` the alignment read back is the
+    alignment written, annotation included, in Pfam (one block) and in Stockholm (the consensus lines are cut at the same
+    columns as the rows and re-assembled) -/
+theorem stockholm_roundtrip_gc_gf (pfam : Bool) (abc : Option Abc) (cfg : Cfg) (enc : UInt8 → UInt8) (txt : Nat → Bytes) (m : Msa)
+    (h : StoWritable abc cfg enc txt m) :
+    stockholmRead cfg (splitLines (stockholmWrite pfam abc m)) = (.ok (stoProject cfg m), []) ∧
+    (stoProject cfg m).ssCons = m.ssCons ∧ (stoProject cfg m).saCons = m.saCons ∧ (stoProject cfg m).ppCons = m.ppCons ∧
+    (stoProject cfg m).rf = m.rf ∧ (stoProject cfg m).mm = m.mm ∧ (stoProject cfg m).name = m.name ∧
+    (stoProject cfg m).acc = m.acc ∧ (stoProject cfg m).desc = m.desc ∧ (stoProject cfg m).au = m.au :=
+  ⟨stoRead_write pfam abc cfg enc txt m h, rfl, rfl, rfl, rfl, rfl, rfl, rfl, rfl, rfl⟩
+
 /-! ### non-vacuity -/
 
 /-- names "a", "bb"; rows "AC-GT", "ACGTT" -/
@@ -316,7 +343,7 @@ def exSto : Msa :=
 theorem exSto_plain : StoPlain exSto := by constructor <;> rfl
 
 theorem exSto_writable : StoTextWritable exSto :=
-  { dig := rfl, plain := exSto_plain, n1 := by decide, alen1 := by decide, nodup := by decide
+  { dig := rfl, ann := exSto_plain.ann, n1 := by decide, alen1 := by decide, nodup := by decide
     name_ok := by unfold stoNameOk nameOk; decide +kernel
     row_ok := by decide +kernel }
 
@@ -330,7 +357,7 @@ def exStoDna : Msa :=
     ax := [[255, 0, 1, 4, 2, 3, 255], [255, 0, 1, 2, 3, 3, 255]], wgt := [.dflt, .dflt] }
 
 theorem exStoDna_writable : StoDigitalWritable abcDna exStoDna :=
-  { dig := rfl, plain := by constructor <;> rfl, n1 := by decide, alen1 := by decide, nodup := by decide
+  { dig := rfl, ann := StoPlain.ann (by constructor <;> rfl), n1 := by decide, alen1 := by decide, nodup := by decide
     name_ok := by unfold stoNameOk nameOk; decide +kernel
     row_ok := by decide +kernel }
 
@@ -344,7 +371,7 @@ def exSto201 : Msa :=
     aseq := [List.replicate 100 65 ++ [45] ++ List.replicate 100 67, List.replicate 200 71 ++ [84]], wgt := [.dflt, .dflt] }
 
 theorem exSto201_writable : StoTextWritable exSto201 :=
-  { dig := rfl, plain := by constructor <;> rfl, n1 := by decide, alen1 := by decide, nodup := by decide
+  { dig := rfl, ann := StoPlain.ann (by constructor <;> rfl), n1 := by decide, alen1 := by decide, nodup := by decide
     name_ok := by unfold stoNameOk nameOk; decide +kernel
     row_ok := by decide +kernel }
 
@@ -352,6 +379,592 @@ example : (blockStarts exSto201.alen (stoCpl false exSto201)).length = 2 := by d
 example : stockholmRead (stockholmCfg none) (splitLines (stockholmWrite false none exSto201))
     = (.ok (stoProject (stockholmCfg none) exSto201), []) := by decide +kernel
 
+/-- 2 sequences, 201 columns (two Stockholm blocks) with `#=GC SS_cons`, `#=GC RF`, `#=GF ID`, `#=GF DE` ("a b") -/
+def exStoAnn : Msa :=
+  { exSto201 with ssCons := some (List.replicate 150 60 ++ List.replicate 51 62), rf := some (List.replicate 201 120),
+                  name := some [105, 100], desc := some [97, 32, 98] }
+
+theorem exStoAnn_writable : StoTextWritable exStoAnn :=
+  { dig := rfl
+    ann :=
+      { hasw := rfl, sqacc := rfl, sqdesc := rfl, ss := rfl, sa := rfl, pp := rfl, cutoff := rfl, gs := rfl, gc := rfl, gr := rfl
+        cons_ok := fun k s hs => by
+          rcases k with _ | _ | _ | _ | _ | _
+          · cases hs; unfold colTextOk; decide +kernel
+          · cases hs
+          · cases hs
+          · cases hs; unfold colTextOk; decide +kernel
+          · cases hs
+          · cases hs
+        name_ok := fun v hv => by cases hv; unfold gfTokOk nameOk; decide +kernel
+        acc_ok := fun v hv => by cases hv
+        desc_ok := fun v hv => by cases hv; unfold gfTextOk; decide +kernel
+        au_ok := fun v hv => by cases hv
+        comments := rfl, gf := rfl }
+    n1 := by decide, alen1 := by decide, nodup := by decide
+    name_ok := by unfold stoNameOk nameOk; decide +kernel
+    row_ok := by decide +kernel }
+
+example : stockholmRead (stockholmCfg none) (splitLines (stockholmWrite false none exStoAnn))
+    = (.ok (stoProject (stockholmCfg none) exStoAnn), []) := by decide +kernel
+example : stoProject (stockholmCfg none) exStoAnn = exStoAnn := by decide +kernel
+
 /-! ## ===== STOCKHOLM/PFAM — end ===== -/
+
+/-! ## ===== SELEX / A2M — begin =====
+
+SELEX: round trip through `esl_msafile_selex_Write` (`selexWrite`: 60-column blocks separated by one blank line, name field
+`max 4 (longest name)` wide + one blank) and `esl_msafile_selex_Read`, for alignments of ANY size (any number of blocks)
+that carry names and aligned rows only (`SelexPlain`: no `#=CS`/`#=RF`/`#=MM` line, no `#=SS`/`#=SA` line for any sequence).
+`SelexTextWritable` / `SelexDigitalWritable`: ≥ 1 sequence, ≥ 1 column; names non-empty, without blank/tab/NUL/LF, not
+beginning with `#` (`selexNameOk`); text residues graphic (so: no white space - a `.`/`-`/`~` gap is text); digital rows
+well formed.  `selexProject` = names, rows in the reader's mode, `#=CS`/`#=RF`/`#=MM` as they are, per-sequence `#=SS`/`#=SA`
+as the reader rebuilds them (no array when no sequence has one), default weights.
+
+PARTIAL with respect to the full statement: `selexProject` is stated for annotated alignments too, but the theorems assume
+`SelexPlain` (stage 4, the annotation lines, is covered by the concrete `example` below and by the executable check only). -/
+
+theorem selex_write_deterministic (abc : Option Abc) (m₁ m₂ : Msa) (h : m₁ = m₂) : selexWrite abc m₁ = selexWrite abc m₂ := by rw [h]
+
+theorem selexDigSymOk_of (a : Abc) (ha : a = abcAmino ∨ a = abcDna ∨ a = abcRna) : selexDigSymOk a = true := by
+  rcases ha with h | h | h <;> subst h
+  · exact selexDigSymOk_amino
+  · exact selexDigSymOk_dna
+  · exact selexDigSymOk_rna
+
+/-- **SELEX round trip, text mode, names and rows, any number of blocks** (stages 1, 2) -/
+theorem selex_roundtrip_plain_text (m : Msa) (h : SelexTextWritable m) :
+    selexRead (selexCfg none) (splitLines (selexWrite none m)) = (.ok (selexProject (selexCfg none) m), []) :=
+  selexRead_write_text m h
+
+/-- **SELEX round trip, digital mode (amino, DNA, RNA), names and rows** (stage 3): the rows come back code for code -/
+theorem selex_roundtrip_plain_digital (a : Abc) (ha : a = abcAmino ∨ a = abcDna ∨ a = abcRna) (m : Msa) (h : SelexDigitalWritable a m) :
+    selexRead (selexCfg (some a)) (splitLines (selexWrite (some a) m)) = (.ok (selexProject (selexCfg (some a)) m), []) :=
+  selexRead_write_digital a (selexDigSymOk_of a ha) m h
+
+/-- the general form both are instances of -/
+theorem selex_roundtrip_plain (abc : Option Abc) (cfg : Cfg) (enc : UInt8 → UInt8) (txt : Nat → Bytes) (m : Msa)
+    (h : SelexWritable abc cfg enc txt m) (name_lf : ∀ i, i < m.nseq → (10 : UInt8) ∉ m.names.getD i []) :
+    selexRead cfg (splitLines (selexWrite abc m)) = (.ok (selexProject cfg m), []) :=
+  selexRead_write abc cfg enc txt m h name_lf
+
+/-- library-written SELEX output is accepted, holds exactly one alignment (the next read is eslEOF), and the alignment read
+    back is well formed (stage 5) -/
+theorem selex_write_accepted (m : Msa) (h : SelexTextWritable m) :
+    (∃ m', (selexRead (selexCfg none) (splitLines (selexWrite none m))).1 = .ok m' ∧ m'.wellFormed = true) ∧
+    (selexRead (selexCfg none) (selexRead (selexCfg none) (splitLines (selexWrite none m))).2).1 = .eof := by
+  have hr := selex_roundtrip_plain_text m h
+  have hg := selexRead_good (selexCfg none) ⟨by decide +kernel, by decide +kernel⟩ (by decide +kernel) (splitLines (selexWrite none m))
+  rw [hr] at hg
+  refine ⟨⟨_, by rw [hr], hg⟩, ?_⟩
+  rw [hr]
+  simp [selexRead, runLines, selexFinish, selexFinal]
+
+theorem selex_write_accepted_digital (a : Abc) (ha : a = abcAmino ∨ a = abcDna ∨ a = abcRna) (m : Msa) (h : SelexDigitalWritable a m) :
+    ∃ m', (selexRead (selexCfg (some a)) (splitLines (selexWrite (some a) m))).1 = .ok m' ∧ m'.wellFormed = true := by
+  have hr := selex_roundtrip_plain_digital a ha m h
+  have hv : (selexCfg (some a)).valid ∧ (selexCfg (some a)).selexOk = true := by
+    rcases ha with h | h | h <;> subst h
+    · exact ⟨⟨by decide +kernel, by decide +kernel⟩, by decide +kernel⟩
+    · exact ⟨⟨by decide +kernel, by decide +kernel⟩, by decide +kernel⟩
+    · exact ⟨⟨by decide +kernel, by decide +kernel⟩, by decide +kernel⟩
+  have hg := selexRead_good (selexCfg (some a)) hv.1 hv.2 (splitLines (selexWrite (some a) m))
+  rw [hr] at hg
+  exact ⟨_, by rw [hr], hg⟩
+
+/-- what SELEX preserves of such an alignment: names, width and the aligned rows, exactly -/
+theorem selex_preserves_names_rows (m : Msa) (h : SelexTextWritable m) :
+    (selexProject (selexCfg none) m).names = m.names ∧ (selexProject (selexCfg none) m).alen = m.alen ∧
+    ∀ i, i < m.nseq → (selexProject (selexCfg none) m).aseq.getD i [] = m.aseq.getD i [] := by
+  refine ⟨rfl, rfl, ?_⟩
+  intro i hi
+  simp [selexProject, selexCfg, Cfg.digital, Msa.stored, h.dig, List.getD_eq_getElem?_getD, hi]
+
+/-- **re-writing the re-read alignment reproduces the same bytes** (text mode): `write (read (write m)) = write m` -/
+theorem selex_rewrite_same (m : Msa) (h : SelexTextWritable m) :
+    ∃ m', (selexRead (selexCfg none) (splitLines (selexWrite none m))).1 = .ok m' ∧ selexWrite none m' = selexWrite none m :=
+  ⟨selexProject (selexCfg none) m, by rw [selex_roundtrip_plain_text m h], selexWrite_project_text m h⟩
+
+/-- … and in digital mode (amino, DNA, RNA) -/
+theorem selex_rewrite_same_digital (a : Abc) (ha : a = abcAmino ∨ a = abcDna ∨ a = abcRna) (m : Msa) (h : SelexDigitalWritable a m) :
+    ∃ m', (selexRead (selexCfg (some a)) (splitLines (selexWrite (some a) m))).1 = .ok m' ∧
+      selexWrite (some a) m' = selexWrite (some a) m :=
+  ⟨selexProject (selexCfg (some a)) m, by rw [selex_roundtrip_plain_digital a ha m h], selexWrite_project_digital a m h⟩
+
+/-! ### non-vacuity: 2 sequences, 61 columns (two blocks: 60 + 1); the second row starts and ends with gap characters -/
+
+def exSlx : Msa :=
+  { alen := 61, names := [[115, 101, 113, 49], [97, 98, 99, 100, 101, 102, 103]],
+    aseq := [List.replicate 30 65 ++ [45] ++ List.replicate 30 67, [46] ++ List.replicate 59 71 ++ [45]],
+    wgt := [.dflt, .dflt] }
+
+theorem exSlx_plain : SelexPlain exSlx := by constructor <;> decide +kernel
+
+theorem exSlx_writable : SelexTextWritable exSlx :=
+  { dig := rfl, plain := exSlx_plain, n1 := by decide, alen1 := by decide
+    name_ok := by unfold selexNameOk sqTagOk nameOk; decide +kernel
+    row_ok := by decide +kernel }
+
+example : (blockStarts exSlx.alen selexCpl).length = 2 := by decide +kernel
+example : selexRead (selexCfg none) (splitLines (selexWrite none exSlx))
+    = (.ok (selexProject (selexCfg none) exSlx), []) := by decide +kernel
+example : selexProject (selexCfg none) exSlx = exSlx := by decide +kernel
+example : selexWrite none (selexProject (selexCfg none) exSlx) = selexWrite none exSlx := by decide +kernel
+
+/-- the same digitised with the DNA alphabet (A=0 C=1 G=2 gap=4 missing=17) -/
+def exSlxDna : Msa :=
+  { digital := true, kp := 18, alen := 61, names := exSlx.names,
+    ax := [255 :: (List.replicate 30 0 ++ [4] ++ List.replicate 30 1) ++ [255], 255 :: ([17] ++ List.replicate 59 2 ++ [4]) ++ [255]],
+    wgt := [.dflt, .dflt] }
+
+theorem exSlxDna_writable : SelexDigitalWritable abcDna exSlxDna :=
+  { dig := rfl, plain := by constructor <;> decide +kernel, n1 := by decide, alen1 := by decide
+    name_ok := by unfold selexNameOk sqTagOk nameOk; decide +kernel
+    row_ok := by decide +kernel }
+
+example : selexRead (selexCfg (some abcDna)) (splitLines (selexWrite (some abcDna) exSlxDna))
+    = (.ok (selexProject (selexCfg (some abcDna)) exSlxDna), []) := by decide +kernel
+example : (selexProject (selexCfg (some abcDna)) exSlxDna).ax = exSlxDna.ax := by decide +kernel
+
+/-- stage 4, by evaluation only: `#=CS`, `#=RF`, `#=MM`, `#=SS` on the second sequence, `#=SA` on the first, 5 columns -/
+def exSlxAnn : Msa :=
+  { alen := 5, names := [[97], [98, 98, 98, 98, 98, 98]], aseq := [[65, 67, 45, 71, 84], [45, 67, 71, 84, 46]],
+    wgt := [.dflt, .dflt], rf := some [120, 120, 46, 120, 120], ssCons := some [60, 60, 46, 62, 62],
+    mm := some [46, 46, 109, 46, 46], ss := some [none, some [60, 46, 46, 46, 62]], sa := some [some [49, 50, 51, 52, 53], none] }
+
+example : selexRead (selexCfg none) (splitLines (selexWrite none exSlxAnn))
+    = (.ok (selexProject (selexCfg none) exSlxAnn), []) := by decide +kernel
+
+/-! ### A2M
+
+Round trip through `esl_msafile_a2m_Write` (`a2mWrite`, dotless, 60 per line) and `esl_msafile_a2m_Read`.
+`A2mTextWritable` / `A2mDigitalWritable` say which alignments are covered: ≥ 1 sequence, ≥ 1 column, names without
+blank/tab/NUL, descriptions that do not start with a blank and hold no NUL, no LF inside / CR at the end of a name line,
+no separate accessions (A2M prints them into the description), rows of `alen` symbols / well-formed digital rows, and
+EVERY COLUMN A CONSENSUS COLUMN (`msa->rf` alphanumeric everywhere or, without `rf`, the first sequence a residue
+everywhere), so that the dotless output has no insert columns.  Any size (`alen` > 60: several lines per record).
+`a2mProject` is what A2M represents of such an alignment: names, descriptions, `rf` = `x` in every column, default
+weights, and the rows AS WRITTEN: letters upper-cased, `O`/`o` (pyrrolysine) as `X` / the unknown residue, every
+non-residue symbol (text: non-letters; digital: gap, `*`, `~`) as `-` / the gap (`a2mRow_text`, `a2mRow_digital`);
+rows made of upper-case letters other than `O` and `-` come back unchanged (`a2m_preserves_names_rows`).
+PARTIAL with respect to the full statement: alignments with insert columns (a non-consensus column) are not covered. -/
+
+theorem a2m_write_deterministic (abc : Option Abc) (m₁ m₂ : Msa) (h : m₁ = m₂) : a2mWrite abc m₁ = a2mWrite abc m₂ := by rw [h]
+
+theorem a2mDigSymOk_of (a : Abc) (ha : a = abcAmino ∨ a = abcDna ∨ a = abcRna) : a2mDigSymOk a = true := by
+  rcases ha with h | h | h <;> subst h
+  · exact a2mDigSymOk_amino
+  · exact a2mDigSymOk_dna
+  · exact a2mDigSymOk_rna
+
+/-- **A2M round trip, text mode**: `read (write m) = ok (project m)`, nothing left unread -/
+theorem a2m_roundtrip_text (m : Msa) (h : A2mTextWritable m) :
+    a2mRead (a2mCfg none) (splitLines (a2mWrite none m)) = (.ok (a2mProject none (a2mCfg none) id m), []) :=
+  a2mRead_write (a2mTextWritable_writable m h)
+
+/-- **A2M round trip, digital mode** (amino, DNA, RNA) -/
+theorem a2m_roundtrip_digital (a : Abc) (ha : a = abcAmino ∨ a = abcDna ∨ a = abcRna) (m : Msa) (h : A2mDigitalWritable a m) :
+    a2mRead (a2mCfg (some a)) (splitLines (a2mWrite (some a) m))
+      = (.ok (a2mProject (some a) (a2mCfg (some a)) (a2mEnc a) m), []) :=
+  a2mRead_write (a2mDigitalWritable_writable a (a2mDigSymOk_of a ha) m h)
+
+/-- the general form both are instances of -/
+theorem a2m_roundtrip (abc : Option Abc) (cfg : Cfg) (enc : UInt8 → UInt8) (m : Msa) (h : A2mWritable abc cfg enc m) :
+    a2mRead cfg (splitLines (a2mWrite abc m)) = (.ok (a2mProject abc cfg enc m), []) :=
+  a2mRead_write h
+
+/-- library-written A2M output is accepted by the reader, holds exactly one alignment (the next read is eslEOF), and the
+    alignment read back is well formed (text mode) -/
+theorem a2m_write_accepted (m : Msa) (h : A2mTextWritable m) :
+    (∃ m', (a2mRead (a2mCfg none) (splitLines (a2mWrite none m))).1 = .ok m' ∧ m'.wellFormed = true) ∧
+    (a2mRead (a2mCfg none) (a2mRead (a2mCfg none) (splitLines (a2mWrite none m))).2).1 = .eof := by
+  have hr := a2m_roundtrip_text m h
+  have hg := a2mRead_good (a2mCfg none) ⟨by decide +kernel, by decide +kernel⟩ ⟨by decide +kernel, by decide +kernel⟩
+    (splitLines (a2mWrite none m))
+  rw [hr] at hg
+  refine ⟨⟨_, by rw [hr], hg⟩, ?_⟩
+  rw [hr]
+  simp [a2mRead, runLines, a2mFinish]
+
+/-- … and in digital mode (amino, DNA, RNA) -/
+theorem a2m_write_accepted_digital (a : Abc) (ha : a = abcAmino ∨ a = abcDna ∨ a = abcRna) (m : Msa) (h : A2mDigitalWritable a m) :
+    (∃ m', (a2mRead (a2mCfg (some a)) (splitLines (a2mWrite (some a) m))).1 = .ok m' ∧ m'.wellFormed = true) ∧
+    (a2mRead (a2mCfg (some a)) (a2mRead (a2mCfg (some a)) (splitLines (a2mWrite (some a) m))).2).1 = .eof := by
+  have hr := a2m_roundtrip_digital a ha m h
+  have hv : (a2mCfg (some a)).valid ∧ A2mValid (a2mCfg (some a)) := by
+    rcases ha with h | h | h <;> subst h
+    · exact ⟨⟨by decide +kernel, by decide +kernel⟩, ⟨by decide +kernel, by decide +kernel⟩⟩
+    · exact ⟨⟨by decide +kernel, by decide +kernel⟩, ⟨by decide +kernel, by decide +kernel⟩⟩
+    · exact ⟨⟨by decide +kernel, by decide +kernel⟩, ⟨by decide +kernel, by decide +kernel⟩⟩
+  have hg := a2mRead_good (a2mCfg (some a)) hv.1 hv.2 (splitLines (a2mWrite (some a) m))
+  rw [hr] at hg
+  refine ⟨⟨_, by rw [hr], hg⟩, ?_⟩
+  rw [hr]
+  simp [a2mRead, runLines, a2mFinish]
+
+/-- what comes back in text mode: names, `alen`, and each row with letters upper-cased, `O`/`o` as `X`, anything else as `-` -/
+theorem a2m_rows_text (m : Msa) (h : A2mTextWritable m) :
+    (a2mProject none (a2mCfg none) id m).names = m.names ∧ (a2mProject none (a2mCfg none) id m).alen = m.alen ∧
+    ∀ i, i < m.nseq → (a2mProject none (a2mCfg none) id m).aseq.getD i [] = (m.aseq.getD i []).map a2mTextNorm := by
+  refine ⟨rfl, rfl, ?_⟩
+  intro i hi
+  rw [← a2mRow_text m h i hi]
+  simp [a2mProject, a2mCfg, Cfg.digital, List.getD_eq_getElem?_getD, hi]
+
+/-- what A2M preserves exactly: names and rows made of upper-case letters other than `O` and of `-` -/
+theorem a2m_preserves_names_rows (m : Msa) (h : A2mTextWritable m)
+    (hr : ∀ i, i < m.nseq → ∀ t ∈ m.aseq.getD i [], consChar t) :
+    (a2mProject none (a2mCfg none) id m).names = m.names ∧ (a2mProject none (a2mCfg none) id m).alen = m.alen ∧
+    ∀ i, i < m.nseq → (a2mProject none (a2mCfg none) id m).aseq.getD i [] = m.aseq.getD i [] := by
+  refine ⟨rfl, rfl, ?_⟩
+  intro i hi
+  rw [← a2mRow_text_exact m h i hi (hr i hi)]
+  simp [a2mProject, a2mCfg, Cfg.digital, List.getD_eq_getElem?_getD, hi]
+
+/-- what comes back in digital mode: code for code, except `O` → unknown residue and `*`, `~` → gap -/
+theorem a2m_rows_digital (a : Abc) (ha : a = abcAmino ∨ a = abcDna ∨ a = abcRna) (m : Msa) (h : A2mDigitalWritable a m) :
+    ∀ i, i < m.nseq → (a2mProject (some a) (a2mCfg (some a)) (a2mEnc a) m).ax.getD i []
+      = dsqSENTINEL :: (List.range m.alen).map (fun p => a2mDigNorm a (axAt m i p)) ++ [dsqSENTINEL] := by
+  intro i hi
+  rw [← a2mRow_digital a (a2mDigSymOk_of a ha) m h i hi]
+  simp [a2mProject, a2mCfg, Cfg.digital, List.getD_eq_getElem?_getD, hi]
+
+/-- **re-writing the re-read alignment reproduces the same bytes** (text mode): `write (read (write m)) = write m` -/
+theorem a2m_rewrite_same_text (m : Msa) (h : A2mTextWritable m) :
+    ∃ m', (a2mRead (a2mCfg none) (splitLines (a2mWrite none m))).1 = .ok m' ∧ a2mWrite none m' = a2mWrite none m :=
+  ⟨a2mProject none (a2mCfg none) id m, by rw [a2m_roundtrip_text m h], a2mWrite_project_text m h⟩
+
+/-- … and in digital mode (amino, DNA, RNA) -/
+theorem a2m_rewrite_same_digital (a : Abc) (ha : a = abcAmino ∨ a = abcDna ∨ a = abcRna) (m : Msa) (h : A2mDigitalWritable a m) :
+    ∃ m', (a2mRead (a2mCfg (some a)) (splitLines (a2mWrite (some a) m))).1 = .ok m' ∧ a2mWrite (some a) m' = a2mWrite (some a) m := by
+  have hf : a2mDigFixB a = true := by
+    rcases ha with h | h | h <;> subst h
+    · exact a2mDigFixB_amino
+    · exact a2mDigFixB_dna
+    · exact a2mDigFixB_rna
+  exact ⟨a2mProject (some a) (a2mCfg (some a)) (a2mEnc a) m, by rw [a2m_roundtrip_digital a ha m h],
+    a2mWrite_project_digital a (a2mDigSymOk_of a ha) hf m h⟩
+
+/-! ## non-vacuity -/
+
+/-- names "a", "bb"; rows "ACDGT", "A-gOT"; description "d e" on the first -/
+def exA2m : Msa :=
+  { alen := 5, names := [[97], [98, 98]], aseq := [[65, 67, 68, 71, 84], [65, 45, 103, 79, 84]],
+    wgt := [.dflt, .dflt], sqdesc := some [some [100, 32, 101], none] }
+
+example : a2mRead (a2mCfg none) (splitLines (a2mWrite none exA2m)) = (.ok (a2mProject none (a2mCfg none) id exA2m), []) := by
+  decide +kernel
+example : (a2mProject none (a2mCfg none) id exA2m).aseq = [[65, 67, 68, 71, 84], [65, 45, 71, 88, 84]] := by decide +kernel
+example : (a2mProject none (a2mCfg none) id exA2m).sqdesc = exA2m.sqdesc := by decide +kernel
+example : (a2mProject none (a2mCfg none) id exA2m).rf = some [120, 120, 120, 120, 120] := by decide +kernel
+
+/-- 61 columns: two lines per record -/
+def exA2mLong : Msa :=
+  { alen := 61, names := [[97], [98]], aseq := [List.replicate 61 65, List.replicate 60 45 ++ [67]], wgt := [.dflt, .dflt] }
+
+example : (a2mLines none exA2mLong).length = 6 := by decide +kernel
+example : a2mRead (a2mCfg none) (splitLines (a2mWrite none exA2mLong))
+    = (.ok (a2mProject none (a2mCfg none) id exA2mLong), []) := by decide +kernel
+example : (a2mProject none (a2mCfg none) id exA2mLong).aseq = exA2mLong.aseq := by decide +kernel
+
+/-- DNA: rows A C G T / A - N * ; the second comes back as A - N - -/
+def exA2mDna : Msa :=
+  { digital := true, kp := 18, alen := 4, names := [[97], [98]], ax := [[255, 0, 1, 2, 3, 255], [255, 0, 4, 15, 16, 255]],
+    wgt := [.dflt, .dflt] }
+
+example : a2mRead (a2mCfg (some abcDna)) (splitLines (a2mWrite (some abcDna) exA2mDna))
+    = (.ok (a2mProject (some abcDna) (a2mCfg (some abcDna)) (a2mEnc abcDna) exA2mDna), []) := by decide +kernel
+example : (a2mProject (some abcDna) (a2mCfg (some abcDna)) (a2mEnc abcDna) exA2mDna).ax
+    = [[255, 0, 1, 2, 3, 255], [255, 0, 4, 15, 4, 255]] := by decide +kernel
+example : a2mWrite (some abcDna) (a2mProject (some abcDna) (a2mCfg (some abcDna)) (a2mEnc abcDna) exA2mDna)
+    = a2mWrite (some abcDna) exA2mDna := by decide +kernel
+example : a2mWrite none (a2mProject none (a2mCfg none) id exA2m) = a2mWrite none exA2m := by decide +kernel
+
+theorem lt_two_cases (i : Nat) (h : i < 2) : i = 0 ∨ i = 1 := by omega
+
+/-- the hypotheses of the text-mode theorems hold of `exA2m` (which has a description, a gap, a lower-case letter and an `O`) -/
+theorem exA2m_writable : A2mTextWritable exA2m :=
+  { dig := rfl, n1 := by decide, alen1 := by decide, acc_none := rfl
+    name_ok := fun i hi => by
+      rcases lt_two_cases i hi with rfl | rfl
+      · exact ⟨by decide, by decide⟩
+      · exact ⟨by decide, by decide⟩
+    desc_ok := fun i hi d hd => by
+      rcases lt_two_cases i hi with rfl | rfl
+      · have h0 : optAt exA2m.sqdesc 0 = some [100, 32, 101] := by decide +kernel
+        rw [h0] at hd
+        cases hd
+        exact ⟨⟨100, [32, 101], rfl, by decide⟩, by decide⟩
+      · have h1 : optAt exA2m.sqdesc 1 = none := by decide +kernel
+        rw [h1] at hd
+        cases hd
+    hdr_line := fun i hi => by
+      rcases lt_two_cases i hi with rfl | rfl
+      · exact ⟨by decide +kernel, by decide +kernel⟩
+      · exact ⟨by decide +kernel, by decide +kernel⟩
+    row_len := fun i hi => by
+      rcases lt_two_cases i hi with rfl | rfl <;> decide
+    cons_ok := by decide +kernel }
+
+/-- the hypotheses of the digital theorems hold of `exA2mDna` -/
+theorem exA2mDna_writable : A2mDigitalWritable abcDna exA2mDna :=
+  { dig := rfl, n1 := by decide, alen1 := by decide, acc_none := rfl
+    name_ok := fun i hi => by
+      rcases lt_two_cases i hi with rfl | rfl
+      · exact ⟨by decide, by decide⟩
+      · exact ⟨by decide, by decide⟩
+    desc_ok := fun i hi d hd => by
+      have h0 : optAt exA2mDna.sqdesc i = none := by
+        rcases lt_two_cases i hi with rfl | rfl <;> decide +kernel
+      rw [h0] at hd
+      cases hd
+    hdr_line := fun i hi => by
+      rcases lt_two_cases i hi with rfl | rfl
+      · exact ⟨by decide +kernel, by decide +kernel⟩
+      · exact ⟨by decide +kernel, by decide +kernel⟩
+    row_ok := fun i hi => by
+      rcases lt_two_cases i hi with rfl | rfl <;> decide +kernel
+    cons_ok := by decide +kernel }
+
+/-! ## ===== SELEX / A2M — end ===== -/
+
+/-! ## ===== CLUSTAL / PSI-BLAST — begin =====
+
+Clustal (`like = false`, header `CLUSTAL 2.1 multiple sequence alignment`) and Clustal-like (`like = true`, header
+`EASEL (<version>) multiple sequence alignment`), any number of 60-column blocks.
+`ClustalTextWritable` / `ClustalDigitalWritable` say what Clustal can carry through `esl_msafile_clustal_Read`:
+≥ 1 sequence, ≥ 1 column, names not empty and without white space (the reader splits the line on `isspace`) or NUL,
+text residues graphic, digital rows well formed, and no row AFTER THE FIRST of a block may look like a consensus line
+(`esl_memspn(p, n, " .:*") == n` ends the block): its name holds a character outside `" .:*"`, or all its residues do
+(digital: no `*` code in the row).  `clustalProject` is what Clustal represents: names, aligned rows, default weights. -/
+
+theorem clustal_write_deterministic (like : Bool) (abc : Option Abc) (m₁ m₂ : Msa) (h : m₁ = m₂) :
+    clustalWrite like abc m₁ = clustalWrite like abc m₂ := by rw [h]
+
+theorem cluDigSymOk_of (a : Abc) (ha : a = abcAmino ∨ a = abcDna ∨ a = abcRna) : cluDigSymOk a = true := by
+  rcases ha with h | h | h <;> subst h
+  · exact cluDigSymOk_amino
+  · exact cluDigSymOk_dna
+  · exact cluDigSymOk_rna
+
+/-- **Clustal / Clustal-like round trip, text mode** -/
+theorem clustal_roundtrip_text (like : Bool) (m : Msa) (h : ClustalTextWritable m) :
+    clustalRead like (clustalCfg none) (splitLines (clustalWrite like none m)) = (.ok (clustalProject (clustalCfg none) m), []) :=
+  clustalRead_write like none (clustalCfg none) id _ m (clustalTextWritable_writable m h)
+
+/-- **Clustal / Clustal-like round trip, digital mode** (amino, DNA, RNA) -/
+theorem clustal_roundtrip_digital (like : Bool) (a : Abc) (ha : a = abcAmino ∨ a = abcDna ∨ a = abcRna) (m : Msa)
+    (h : ClustalDigitalWritable a m) :
+    clustalRead like (clustalCfg (some a)) (splitLines (clustalWrite like (some a) m))
+      = (.ok (clustalProject (clustalCfg (some a)) m), []) :=
+  clustalRead_write like (some a) (clustalCfg (some a)) (cluEnc a) _ m (clustalDigitalWritable_writable a (cluDigSymOk_of a ha) m h)
+
+/-- the general form -/
+theorem clustal_roundtrip (like : Bool) (abc : Option Abc) (cfg : Cfg) (enc : UInt8 → UInt8) (txt : Nat → Bytes) (m : Msa)
+    (h : ClustalWritable abc cfg enc txt m) :
+    clustalRead like cfg (splitLines (clustalWrite like abc m)) = (.ok (clustalProject cfg m), []) :=
+  clustalRead_write like abc cfg enc txt m h
+
+/-- library-written Clustal is accepted, holds exactly one alignment (the next read is eslEOF), and the alignment read
+    back is well formed -/
+theorem clustal_write_accepted (like : Bool) (m : Msa) (h : ClustalTextWritable m) :
+    (∃ m', (clustalRead like (clustalCfg none) (splitLines (clustalWrite like none m))).1 = .ok m' ∧ m'.wellFormed = true) ∧
+    (clustalRead like (clustalCfg none) (clustalRead like (clustalCfg none) (splitLines (clustalWrite like none m))).2).1 = .eof := by
+  have hr := clustal_roundtrip_text like m h
+  have hg := clustalRead_good like (clustalCfg none) ⟨by decide +kernel, by decide +kernel⟩ (splitLines (clustalWrite like none m))
+  rw [hr] at hg
+  refine ⟨⟨_, by rw [hr], hg⟩, ?_⟩
+  rw [hr]
+  rfl
+
+/-- **re-writing the re-read alignment reproduces the same bytes**, text mode -/
+theorem clustal_rewrite_same_text (like : Bool) (m : Msa) (h : ClustalTextWritable m) :
+    ∃ m', (clustalRead like (clustalCfg none) (splitLines (clustalWrite like none m))).1 = .ok m' ∧
+      clustalWrite like none m' = clustalWrite like none m :=
+  ⟨clustalProject (clustalCfg none) m, by rw [clustal_roundtrip_text like m h], clustalWrite_project_text like m h⟩
+
+/-- … and in digital mode (amino, DNA, RNA) -/
+theorem clustal_rewrite_same_digital (like : Bool) (a : Abc) (ha : a = abcAmino ∨ a = abcDna ∨ a = abcRna) (m : Msa)
+    (h : ClustalDigitalWritable a m) :
+    ∃ m', (clustalRead like (clustalCfg (some a)) (splitLines (clustalWrite like (some a) m))).1 = .ok m' ∧
+      clustalWrite like (some a) m' = clustalWrite like (some a) m :=
+  ⟨clustalProject (clustalCfg (some a)) m, by rw [clustal_roundtrip_digital like a ha m h], clustalWrite_project_digital like a m h⟩
+
+/-- what Clustal preserves: the names and the aligned rows exactly -/
+theorem clustal_preserves_names_rows (m : Msa) (h : ClustalTextWritable m) :
+    (clustalProject (clustalCfg none) m).names = m.names ∧ (clustalProject (clustalCfg none) m).alen = m.alen ∧
+    ∀ i, i < m.nseq → (clustalProject (clustalCfg none) m).aseq.getD i [] = m.aseq.getD i [] := by
+  refine ⟨rfl, rfl, ?_⟩
+  intro i hi
+  simp [clustalProject, clustalCfg, Cfg.digital, Msa.stored, h.dig, List.getD_eq_getElem?_getD, hi]
+
+/-! ### non-vacuity: 2 sequences; 3 columns (one block) and 61 columns (two blocks); the second name is `*` -/
+
+def exClu1 : Msa := { alen := 3, names := [str "seq1", str "b"], aseq := [str "ACG", str "A-G"], wgt := [.dflt, .dflt] }
+
+theorem exClu1_writable : ClustalTextWritable exClu1 :=
+  { dig := rfl, n1 := by decide, alen1 := by decide
+    name_ok := by unfold cluNameOk; decide +kernel
+    row_ok := by decide +kernel
+    notcons := by decide +kernel }
+
+example : clustalRead false (clustalCfg none) (splitLines (clustalWrite false none exClu1))
+    = (.ok (clustalProject (clustalCfg none) exClu1), []) := by decide +kernel
+example : clustalProject (clustalCfg none) exClu1 = exClu1 := by decide +kernel
+
+/-- two blocks; the name of the second row is `*`: its residues keep it from being taken for a consensus line -/
+def exClu : Msa :=
+  { alen := 61, names := [[115, 101, 113, 49], [42]],
+    aseq := [List.replicate 30 65 ++ [45] ++ List.replicate 30 67, List.replicate 60 71 ++ [63]],
+    wgt := [.dflt, .dflt] }
+
+theorem exClu_writable : ClustalTextWritable exClu :=
+  { dig := rfl, n1 := by decide, alen1 := by decide
+    name_ok := by unfold cluNameOk; decide +kernel
+    row_ok := by decide +kernel
+    notcons := by decide +kernel }
+
+example : (blockStarts exClu.alen clustalCpl).length = 2 := by decide +kernel
+example : clustalRead false (clustalCfg none) (splitLines (clustalWrite false none exClu))
+    = (.ok (clustalProject (clustalCfg none) exClu), []) := by decide +kernel
+example : clustalRead true (clustalCfg none) (splitLines (clustalWrite true none exClu))
+    = (.ok (clustalProject (clustalCfg none) exClu), []) := by decide +kernel
+example : clustalWrite true none (clustalProject (clustalCfg none) exClu) = clustalWrite true none exClu := by decide +kernel
+
+/-- `notcons` is needed: with the name `*` and a row of `*` the second row of the FIRST block is taken for the consensus
+    line, the real consensus line for a blank one, and the read returns eslOK with the first sequence only -/
+example : (clustalRead false (clustalCfg none) (splitLines (clustalWrite false none
+    { alen := 2, names := [[97], [42]], aseq := [[65, 67], [42, 42]], wgt := [.dflt, .dflt] }))).1
+    = .ok { alen := 2, names := [[97]], aseq := [[65, 67]], wgt := [.dflt] } := by decide +kernel
+
+/-- the same alignment digitised with the DNA alphabet (A=0 C=1 G=2 gap=4 missing=17) -/
+def exCluDna : Msa :=
+  { digital := true, kp := 18, alen := 61, names := exClu.names,
+    ax := [255 :: (List.replicate 30 0 ++ [4] ++ List.replicate 30 1) ++ [255], 255 :: (List.replicate 60 2 ++ [17]) ++ [255]],
+    wgt := [.dflt, .dflt] }
+
+theorem exCluDna_writable : ClustalDigitalWritable abcDna exCluDna :=
+  { dig := rfl, n1 := by decide, alen1 := by decide
+    name_ok := by unfold cluNameOk; decide +kernel
+    row_ok := by decide +kernel
+    notcons := by decide +kernel }
+
+example : clustalRead true (clustalCfg (some abcDna)) (splitLines (clustalWrite true (some abcDna) exCluDna))
+    = (.ok (clustalProject (clustalCfg (some abcDna)) exCluDna), []) := by decide +kernel
+example : (clustalProject (clustalCfg (some abcDna)) exCluDna).ax = exCluDna.ax := by decide +kernel
+
+/-! ### PSI-BLAST
+
+`esl_msafile_psiblast_Write` prints consensus columns (by `rf`, else by the first sequence) upper case, the others lower
+case, everything that is not a residue as `-`, and `O` as the unknown residue; `esl_msafile_psiblast_Read` builds an RF line
+from the case.  `PsiblastTextWritable` restricts to the alignments on which these conventions are the identity: residues
+upper-case letters other than `O` or `-`, every column a consensus column or all `-`.  `psiblastProject cfg rf m` is what
+comes back: names, rows, default weights, and the RF line `psiRf` (`x` where some row holds a residue, `-` elsewhere). -/
+
+theorem psiblast_write_deterministic (abc : Option Abc) (m₁ m₂ : Msa) (h : m₁ = m₂) :
+    psiblastWrite abc m₁ = psiblastWrite abc m₂ := by rw [h]
+
+/-- **PSI-BLAST round trip, text mode**, any number of 60-column blocks -/
+theorem psiblast_roundtrip_text (m : Msa) (h : PsiblastTextWritable m) :
+    psiblastRead (psiblastCfg none) (splitLines (psiblastWrite none m))
+      = (.ok (psiblastProject (psiblastCfg none) (psiRf (fun i => m.aseq.getD i []) m) m), []) :=
+  psiblastRead_write none (psiblastCfg none) id _ m (psiblastTextWritable_writable m h)
+
+theorem psiDigSymOk_of (a : Abc) (ha : a = abcAmino ∨ a = abcDna ∨ a = abcRna) : psiDigSymOk a = true := by
+  rcases ha with h | h | h <;> subst h
+  · exact psiDigSymOk_amino
+  · exact psiDigSymOk_dna
+  · exact psiDigSymOk_rna
+
+/-- **PSI-BLAST round trip, digital mode** (amino, DNA, RNA): rows of residue codes (degenerate ones included, not
+    pyrrolysine) and gaps, every column a consensus column or all gaps -/
+theorem psiblast_roundtrip_digital (a : Abc) (ha : a = abcAmino ∨ a = abcDna ∨ a = abcRna) (m : Msa) (h : PsiblastDigitalWritable a m) :
+    psiblastRead (psiblastCfg (some a)) (splitLines (psiblastWrite (some a) m))
+      = (.ok (psiblastProject (psiblastCfg (some a)) (psiRf (psiDigTxt a m) m) m), []) :=
+  psiblastRead_write (some a) (psiblastCfg (some a)) (psiEnc a) _ m (psiblastDigitalWritable_writable a (psiDigSymOk_of a ha) m h)
+
+/-- the general form (`txt i` = the text written for row `i`, upper-case letters and `-`; `enc` = the input map on them) -/
+theorem psiblast_roundtrip (abc : Option Abc) (cfg : Cfg) (enc : UInt8 → UInt8) (txt : Nat → Bytes) (m : Msa)
+    (h : PsiblastWritable abc cfg enc txt m) :
+    psiblastRead cfg (splitLines (psiblastWrite abc m)) = (.ok (psiblastProject cfg (psiRf txt m) m), []) :=
+  psiblastRead_write abc cfg enc txt m h
+
+/-- library-written PSI-BLAST is accepted, holds exactly one alignment, and the alignment read back is well formed -/
+theorem psiblast_write_accepted (m : Msa) (h : PsiblastTextWritable m) :
+    (∃ m', (psiblastRead (psiblastCfg none) (splitLines (psiblastWrite none m))).1 = .ok m' ∧ m'.wellFormed = true) ∧
+    (psiblastRead (psiblastCfg none) (psiblastRead (psiblastCfg none) (splitLines (psiblastWrite none m))).2).1 = .eof := by
+  have hr := psiblast_roundtrip_text m h
+  have hg := psiblastRead_good (psiblastCfg none) ⟨by decide +kernel, by decide +kernel⟩ (splitLines (psiblastWrite none m))
+  rw [hr] at hg
+  refine ⟨⟨_, by rw [hr], hg⟩, ?_⟩
+  rw [hr]
+  rfl
+
+/-- **re-writing the re-read alignment reproduces the same bytes**, text mode (although the re-read alignment carries
+    an RF line the original need not have) -/
+theorem psiblast_rewrite_same_text (m : Msa) (h : PsiblastTextWritable m) :
+    ∃ m', (psiblastRead (psiblastCfg none) (splitLines (psiblastWrite none m))).1 = .ok m' ∧
+      psiblastWrite none m' = psiblastWrite none m :=
+  ⟨_, by rw [psiblast_roundtrip_text m h], psiblastWrite_project_text m h⟩
+
+/-- what PSI-BLAST preserves: the names and the aligned rows exactly -/
+theorem psiblast_preserves_names_rows (m : Msa) (h : PsiblastTextWritable m) (rf : Bytes) :
+    (psiblastProject (psiblastCfg none) rf m).names = m.names ∧ (psiblastProject (psiblastCfg none) rf m).alen = m.alen ∧
+    ∀ i, i < m.nseq → (psiblastProject (psiblastCfg none) rf m).aseq.getD i [] = m.aseq.getD i [] := by
+  refine ⟨rfl, rfl, ?_⟩
+  intro i hi
+  simp [psiblastProject, psiblastCfg, Cfg.digital, Msa.stored, h.dig, List.getD_eq_getElem?_getD, hi]
+
+/-! non-vacuity: 2 sequences; 3 columns, and 61 columns (two blocks) with an all-gap column and a gap in the second row -/
+
+def exPsi1 : Msa := { alen := 3, names := [str "seq1", str "b"], aseq := [str "ACG", str "A-G"], wgt := [.dflt, .dflt] }
+
+theorem exPsi1_writable : PsiblastTextWritable exPsi1 :=
+  { dig := rfl, n1 := by decide, alen1 := by decide
+    name_ok := by unfold cluNameOk; decide +kernel
+    row_ok := by decide +kernel
+    col_ok := by decide +kernel }
+
+example : psiblastRead (psiblastCfg none) (splitLines (psiblastWrite none exPsi1))
+    = (.ok (psiblastProject (psiblastCfg none) (psiRf (fun i => exPsi1.aseq.getD i []) exPsi1) exPsi1), []) := by decide +kernel
+example : psiRf (fun i => exPsi1.aseq.getD i []) exPsi1 = str "xxx" := by decide +kernel
+
+def exPsi : Msa :=
+  { alen := 61, names := [[115, 101, 113, 49], [42]],
+    aseq := [List.replicate 30 65 ++ [45] ++ List.replicate 30 67, List.replicate 29 71 ++ [45, 45] ++ List.replicate 30 84],
+    wgt := [.dflt, .dflt] }
+
+theorem exPsi_writable : PsiblastTextWritable exPsi :=
+  { dig := rfl, n1 := by decide, alen1 := by decide
+    name_ok := by unfold cluNameOk; decide +kernel
+    row_ok := by decide +kernel
+    col_ok := by decide +kernel }
+
+example : (blockStarts exPsi.alen psiCpl).length = 2 := by decide +kernel
+example : psiblastRead (psiblastCfg none) (splitLines (psiblastWrite none exPsi))
+    = (.ok (psiblastProject (psiblastCfg none) (psiRf (fun i => exPsi.aseq.getD i []) exPsi) exPsi), []) := by decide +kernel
+example : psiRf (fun i => exPsi.aseq.getD i []) exPsi = List.replicate 30 120 ++ [45] ++ List.replicate 30 120 := by decide +kernel
+example : psiblastWrite none (psiblastProject (psiblastCfg none) (psiRf (fun i => exPsi.aseq.getD i []) exPsi) exPsi)
+    = psiblastWrite none exPsi := by decide +kernel
+
+/-- the same alignment digitised with the DNA alphabet (A=0 C=1 G=2 T=3 gap=4) -/
+def exPsiDna : Msa :=
+  { digital := true, kp := 18, alen := 61, names := exPsi.names,
+    ax := [255 :: (List.replicate 30 0 ++ [4] ++ List.replicate 30 1) ++ [255],
+           255 :: (List.replicate 29 2 ++ [4, 4] ++ List.replicate 30 3) ++ [255]],
+    wgt := [.dflt, .dflt] }
+
+theorem exPsiDna_writable : PsiblastDigitalWritable abcDna exPsiDna :=
+  { dig := rfl, n1 := by decide, alen1 := by decide
+    name_ok := by unfold cluNameOk; decide +kernel
+    row_ok := by decide +kernel
+    col_ok := by decide +kernel }
+
+example : psiblastRead (psiblastCfg (some abcDna)) (splitLines (psiblastWrite (some abcDna) exPsiDna))
+    = (.ok (psiblastProject (psiblastCfg (some abcDna)) (psiRf (psiDigTxt abcDna exPsiDna) exPsiDna) exPsiDna), []) := by decide +kernel
+example : (psiblastProject (psiblastCfg (some abcDna)) (psiRf (psiDigTxt abcDna exPsiDna) exPsiDna) exPsiDna).ax = exPsiDna.ax := by
+  decide +kernel
+
+/-! ## ===== CLUSTAL / PSI-BLAST — end ===== -/
 
 end EaselModel.Props.C03
